@@ -106,7 +106,7 @@ structure DictPlan where
 /-- `size` = prefix length, `lgwin` (sanitised, 10..30), `quality` -/
 def dictPlan (size lgwin quality : Nat) : DictPlan :=
   let maxDict := 2 ^ lgwin - 16
-  if size = 0 ∨ quality = 0 ∨ quality = 1 ∨ size ≤ 1 then ⟨false, 0, 0⟩
+  if size = 0 ∨ quality = 0 ∨ quality = 1 then ⟨false, 0, 0⟩
   else if size > maxDict then ⟨true, size - maxDict, maxDict⟩
   else ⟨true, 0, size⟩
 
@@ -247,16 +247,29 @@ def joined (sp : Spawner) (r : JobRes) : Joined :=
   | .panic => (match sp with | .threads => .execErr | _ => .never)
   | .spin => .never
 
+/-- the `Ok(compressed_out)` arm: the splice runs only while `compression_result` is `Ok`
+(the first failure is final; later jobs are only joined and freed) -/
+def stitchArm (cap : Nat) (a : Acc) (bytes : List Nat) : Res Acc :=
+  match a.res with
+  | .ok _ => stitchOk cap a bytes
+  | .error _ => ok a
+
+/-- the `Err(e)` arm -/
+def errArm (a : Acc) : Acc :=
+  match a.res with
+  | .ok _ => { a with res := .error .insufficient }
+  | .error _ => a
+
 /-- the stitch loop over the joined results of jobs `0 .. t-2`; `.inr e` = the early
-`return Err(e)` from inside the loop -/
+`return Err(e)` from inside the loop (a job thread panicked) -/
 def stitch (cap : Nat) : List Joined → Acc → Res (Acc ⊕ TErr)
   | [], a => ok (.inl a)
   | j :: js, a =>
     match j with
     | .never => hang
     | .execErr => ok (.inr .threadExec)
-    | .ok bytes => (stitchOk cap a bytes).bind fun a' => stitch cap js a'
-    | .err => stitch cap js { a with res := .error .insufficient }
+    | .ok bytes => (stitchArm cap a bytes).bind fun a' => stitch cap js a'
+    | .err => stitch cap js (errArm a)
 
 /-- a job that runs on the calling thread: its panic is the caller's panic -/
 def onCaller (i : Nat) (r : JobRes) : Res JobRes :=
@@ -270,10 +283,12 @@ def inlineSpawns (jobs : Nat → JobRes) : List Nat → Res Unit
   | [] => ok ()
   | i :: is => (onCaller i (jobs i)).bind fun _ => inlineSpawns jobs is
 
-/-- the code after the stitch loop: `compression_result?`, `finish`, hand-back -/
+/-- the code after the stitch loop: `finish` if nothing failed, then the hand-back
+(`spawner_and_input.unwrap()` succeeds: every job has been joined — pool:
+`BV.Props.C07.arc_one_after_all_joined`) -/
 def finishUp (cap : Nat) (a : Acc) : Res MultiRet :=
   match a.res with
-  | .error e => ok ⟨.error e, a.out, false⟩       -- `compression_result?;` — input NOT handed back
+  | .error e => ok ⟨.error e, a.out, true⟩
   | .ok _ =>
     match BV.Concat.finish a.cat (cap - a.out.length) with
     | .panic s => panic (.concat s)
@@ -281,24 +296,25 @@ def finishUp (cap : Nat) (a : Acc) : Res MultiRet :=
       let out := a.out ++ f.produced
       let res : Except TErr Nat :=
         if f.code = BV.Concat.SUCCESS then .ok out.length else .error (.finalization f.code)
-      -- `spawner_and_input.unwrap()` succeeds: every job has been joined
-      -- (pool: `BV.Props.C07.arc_one_after_all_joined`)
       ok ⟨res, out, true⟩
 
-/-- the last arm of the stitch loop (index `t-1`: the local result) -/
+/-- the last iteration of the stitch loop (index `t-1`: the local result) -/
 def stitchLast (cap : Nat) (a : Acc) (lr : JobRes) : Res Acc :=
   match lr with
-  | .ok bytes => stitchOk cap a bytes
-  | _ => ok { a with res := .error .insufficient }
+  | .ok bytes => stitchArm cap a bytes
+  | _ => ok (errArm a)
 
-def acc0 : Acc := ⟨.error .insufficient, [], BV.Concat.State.new⟩
+/-- `compression_result = Ok(0)`, `out_file_size = 0`, `BroCatli::new()` -/
+def acc0 : Acc := ⟨.ok 0, [], BV.Concat.State.new⟩
 
 /-- `CompressMulti(params, owned_input, output, alloc_per_thread, spawner)`.
 `t = alloc_per_thread.len()`, `jobs i` = result of `compress_part` for index `i` (computed with
 the shared pre-built hasher when `favor_cpu_efficiency ∧ t > 1 ∧ i > 0` — the flag has no
 other influence on the control flow), `cap = output.len()`.
 `OwnedRetriever::view` never fails: the `RwLock` is only ever read-locked and a read guard
-does not poison, so the two `return Err(OtherThreadPanic)` after a failed `view` are dead. -/
+does not poison, so the two `return Err(OtherThreadPanic)` after a failed `view` are dead.
+The remaining early return — `join()` answered `Err` because a job thread panicked — leaves
+the input with the still running jobs (`returned = false`). -/
 def compressMulti (sp : Spawner) (t : Nat) (jobs : Nat → JobRes) (cap : Nat) : Res MultiRet :=
   if t = 0 then panic .noThreads else
   -- pool: `assert!(num_threads <= MAX_THREADS)` at the first spawn
@@ -312,44 +328,37 @@ def compressMulti (sp : Spawner) (t : Nat) (jobs : Nat → JobRes) (cap : Nat) :
   | .inr e => ok ⟨.error e, [], false⟩          -- `return Err(err)` inside the loop
   | .inl a => (stitchLast cap a last).bind fun a => finishUp cap a
 
-/-! ## the repaired aggregation (what the proposed corrections D13 + D18 give) -/
+/-! ## the aggregation as it was before the corrections e1db7f0 (hand-back) and 19df515
+(first error final) — kept for the regression theorems of C02 -/
 
-/-- stitch arm with "the first error is final" -/
-def stitchOkFixed (cap : Nat) (a : Acc) (bytes : List Nat) : Res Acc :=
-  match a.res with
-  | .ok _ => stitchOk cap a bytes
-  | .error _ => ok a
-
-def stitchFixed (cap : Nat) : List Joined → Acc → Res (Acc ⊕ TErr)
+/-- stitch loop in which every iteration overwrites `compression_result` -/
+def stitchV0 (cap : Nat) : List Joined → Acc → Res (Acc ⊕ TErr)
   | [], a => ok (.inl a)
   | j :: js, a =>
     match j with
     | .never => hang
     | .execErr => ok (.inr .threadExec)
-    | .ok bytes => (stitchOkFixed cap a bytes).bind fun a' => stitchFixed cap js a'
-    | .err => stitchFixed cap js (match a.res with | .ok _ => { a with res := .error .insufficient } | .error _ => a)
+    | .ok bytes => (stitchOk cap a bytes).bind fun a' => stitchV0 cap js a'
+    | .err => stitchV0 cap js { a with res := .error .insufficient }
 
-/-- `finishUp` with the hand-back on every path (D13) -/
-def finishUpFixed (cap : Nat) (a : Acc) : Res MultiRet :=
+/-- `compression_result?;` before `finish` and before the hand-back -/
+def finishUpV0 (cap : Nat) (a : Acc) : Res MultiRet :=
   match a.res with
-  | .error e => ok ⟨.error e, a.out, true⟩
+  | .error e => ok ⟨.error e, a.out, false⟩
   | .ok _ => finishUp cap a
 
-/-- `CompressMulti` with both corrections: initial `Ok(0)`, first error final, hand-back always -/
-def compressMultiFixed (sp : Spawner) (t : Nat) (jobs : Nat → JobRes) (cap : Nat) : Res MultiRet :=
+def compressMultiV0 (sp : Spawner) (t : Nat) (jobs : Nat → JobRes) (cap : Nat) : Res MultiRet :=
   if t = 0 then panic .noThreads else
   if sp = .pool ∧ t > 1 ∧ t > BV.Gen.MAX_THREADS then panic .poolAssert else
   (if sp = .inline then inlineSpawns jobs (List.range (t - 1)) else ok ()).bind fun _ =>
   (onCaller (t - 1) (jobs (t - 1))).bind fun last =>
   let js := ((List.range (t - 1)).map jobs).map (joined sp)
-  (stitchFixed cap js ⟨.ok 0, [], BV.Concat.State.new⟩).bind fun r =>
+  (stitchV0 cap js ⟨.error .insufficient, [], BV.Concat.State.new⟩).bind fun r =>
   match r with
   | .inr e => ok ⟨.error e, [], false⟩
   | .inl a =>
-    (match last, a.res with
-     | .ok bytes, .ok _ => stitchOk cap a bytes
-     | .ok _, .error _ => ok a
-     | _, .ok _ => ok { a with res := .error .insufficient }
-     | _, .error _ => ok a).bind fun a => finishUpFixed cap a
+    (match last with
+     | .ok bytes => stitchOk cap a bytes
+     | _ => ok { a with res := .error .insufficient }).bind fun a => finishUpV0 cap a
 
 end BV.Multi
